@@ -340,6 +340,8 @@ def _run(ix, R):
     site = T + '::TransmissionModel.compute_path_length_old'
     with R.guard('6', 'SHAPE', site, 'chord arrays'):
         chord_obligations(ix, R, site)
+    with R.guard('6.viewer', 'ARG', T + '::TransmissionModel.compute_path_length', '3-D path viewer'):
+        viewer_obligations(ix, R)
 
 
 def _cutoff_test(fl, g, layer, tau):
@@ -372,6 +374,50 @@ def _cutoff_test(fl, g, layer, tau):
         return ['cut-off tests %s, not the current layer row of tau' %
                 fl.tab.fmt(la.args[0])]
     return []
+
+
+def viewer_obligations(ix, R):
+    """3-D path-length method: the lines of sight start outside the atmosphere.  compute_intersection_3d clips a chord
+    at the viewer, so parallel_vector must be told the top of the very shells it is intersected with (max_alt is the
+    maximum of the boundaries handed to compute_path_length), wherever in the call closure the rays are built."""
+    from sa.callgraph import CallGraph
+    root = ix.func(T + '::TransmissionModel.compute_path_length')
+    pv = ix.func('taurex/util/geometry.py::parallel_vector')
+    cg = CallGraph(ix, ('taurex/model/', 'taurex/data/planet.py'))
+    found = 0
+    for f, par in sorted(cg.reach([root]).values(), key=lambda t: t[0].site):
+        if f.name == 'compute_path_length_old' or f.name == 'path_integral':
+            continue
+        fl = mkflow(ix, f)
+        for e in calls(fl, 'parallel_vector'):
+            found += 1
+            got = bind_call(e, pv.params())
+            why = []
+            cps = [c for c in fl.of('call') if c.name in ('compute_path_length', 'compute_path_length_3d') and c.args]
+            if 'max_alt' not in got:
+                why.append('max_alt is left at its default (1e5 m): shells above it are clipped at the viewer')
+            else:
+                at = atom_of(fl, got['max_alt'])
+                arg = at.args[0] if at is not None and at.head in ('call', 'mcall') and at.extra and \
+                    at.extra[0] in ('fn:max', 'fn:amax', 'fn:nanmax') and len(at.args) == 1 else None
+                if arg is None:
+                    why.append('max_alt = %s is not the maximum of the shell boundaries' % fmt(fl, got['max_alt']))
+                elif not cps or not any(fl.tab.equal(arg, c.args[0]) for c in cps):
+                    why.append('max_alt is the maximum of %s, the shells intersected are %s' % (
+                        fmt(fl, arg), [fmt(fl, c.args[0]) for c in cps]))
+            rad = got.get('R')
+            if rad is None or not (fl.tab.equal(rad, code(fl, 'self.planet.fullRadius')) or
+                                   fl.tab.equal(rad, code(fl, 'self.fullRadius'))):
+                why.append('sphere radius is %s' % fmt(fl, rad))
+            if e.guards or e.loops:
+                why.append('rays are built conditionally')
+            R.check('6.viewer', 'ARG', f.site,
+                    'parallel_vector(planet radius, tangent altitudes, max of the shell boundaries that are intersected): '
+                    'the viewer lies outside the atmosphere',
+                    not why, key='; '.join(why), detail='; '.join(why), loc=f.loc(e.node))
+    if not found:
+        R.error('6.viewer', 'ARG', root.site, 'the construction of the lines of sight is found in the call closure of '
+                'compute_path_length', 'no parallel_vector call reachable')
 
 
 def chord_obligations(ix, R, site):
